@@ -234,13 +234,14 @@ def refusal_tables(v):
               ('fee-product-overflow', 'I', lambda e: e['fact'] is not None and e['fact'][0] == 'is' and e['fact'][2] == 'None' and e['fact'][1][0] == 'rcall' and e['fact'][1][1] in ('checked_mul', 'to_u128') and 'round' in repr(e['fact']) or
                   (e['fact'] is not None and e['fact'][0] == 'is' and e['fact'][2] == 'None' and e['fact'][1][0] == 'rcall' and e['fact'][1][1] == 'checked_mul' and total in e['fact'][1][2])),
               ('fee-amount-wrong', 'L', lambda e: e['fact'] is not None and e['fact'][0] == 'val' and e['fact'][2] is False and e['fact'][1][0] == 'eq' and (F(SOMEV(M(v, 'fee')), 'amount') in e['fact'][1][1:]) and 'round' in repr(e['fact'])),
-              ('fee-missing-but-due', 'L', lambda e: e['fact'] is not None and e['fact'][0] == 'val' and e['fact'][2] is False and e['fact'][1][0] == 'eq' and I(0) in e['fact'][1][1:] and 'round' in repr(e['fact'])),
+              # any spelling of "the computed fee is positive":  x != 0,  0 < x,  !(x < 1),  !is_zero(x)
+              ('fee-missing-but-due', 'L', lambda e: e['fact'] is not None and (lambda sf: sf is not None and sf[1] == 'pos' and isinstance(sf[0], tuple) and sf[0][0] == 'round')(sign_of_fact(e['fact']))),
               ('fee-denom-wrong', 'L', lambda e: isf(e, ('val', EQ(F(SOMEV(M(v, 'fee')), 'denom'), M(v, 'quote')), False)))]
     def ab(e, kind): return e.get('abort') and e['abort'][0] == kind
     TA = [
         ('action-name-serialisation', 'D(unit enum serialises)', lambda e: is_unit_enum_serialisation(e)),
         ('zero-amount-pull', 'D(validate: size >= 1)', lambda e: is_generic_err_unwrap(e)),
-        ('increment-zero', 'D(K)', lambda e: ab(e, 'assert') and 'size_increment' in e['key']),
+        ('increment-zero', 'D(K)', lambda e: is_increment_zero(e)),
         ('precision-power', 'D(K: precision <= 18)', lambda e: (ab(e, 'unwrap') or ab(e, 'assert')) and ('pow' in e['key'] or '^' in e['key'] or 'checked_mul' in e['key'])),
         # unwrap of an explicit Err(..) built from the failed price x 10^precision product (whatever error value it carries)
         ('price-scale-overflow', 'I', lambda e: ab(e, 'unwrap') and isinstance(e['abort'][1], tuple) and e['abort'][1][0] == 'adt' and e['abort'][1][2] == 'Err'
